@@ -21,6 +21,11 @@ CLAIMS = {
          "After every commit under NoMergePolicy and at the end of every generated history (merges joined, gc run) the directory listing must equal meta.json + committed segment files and .managed.json must match; crash images of generated histories are recovered, committed to, collected and checked for orphans.",
          "GC/worker/merge races are those the OS schedule produces in generated histories (gated races are a planned extension); transient survivors are re-collected up to 5 times before being reported",
          "DESIGN.md §3 C10"),
+ "C11": ("fault_enumeration",
+         "fault injection at generated storage-operation positions x mode x kind x thread in child processes, judged against the sequential model and the durable crash image (proptest + process isolation)",
+         "For generated histories a fault-free dry run counts the storage operations; generated positions (fraction of the count) x {once, permanent} x kind filter x thread filter are injected in a child process; every Ok commit's minimal durable image must open and equal its model, after the run the index equals the last successful (or the failed-but-published) commit, and a new writer continues; abort, panic or a stalled child is a violation.",
+         "faults are io::Errors returned by Directory operations of SimDir; positions are sampled (24-40 per history), not all k; hang = no output and no CPU progress for 20 s",
+         "DESIGN.md §3 C11"),
  "C20": ("fault_enumeration",
          "generated write patterns + enumerated/generated file damage vs Index::validate_checksum (proptest, independent crc32)",
          "Every damage class named by the property (single bit, byte substitution, multi-byte, body truncation, whole-file truncation, insertion, extension, unsupported footer versions) is generated against generated small indexes; small files get every single bit flipped and every body truncation length. Exploration of the index/file space, enumeration of the damage positions.",
